@@ -116,6 +116,33 @@ def _guarded(evaluate, case):
         return (None, [], False, None, traceback.format_exc())
 
 
+def _fresh_eval(evaluate, case):
+    """Evaluate one case in a pristine interpreter process; returns (outcome, fails, nontrivial, info) or None."""
+    import subprocess
+
+    code = (
+        "import importlib, json, sys\n"
+        "from vf.core.ctx import _guarded\n"
+        "m = importlib.import_module(sys.argv[1])\n"
+        "r = _guarded(getattr(m, sys.argv[2]), json.loads(sys.stdin.read()))\n"
+        "print('FRESH ' + json.dumps([r[0], r[1], r[2], r[3], r[4]]))\n"
+    )
+    try:
+        out = subprocess.run(
+            [sys.executable, "-c", code, evaluate.__module__, evaluate.__name__],
+            input=json.dumps(jsonable(case)), capture_output=True, text=True, timeout=3600,
+        )
+    except Exception:  # noqa
+        return None
+    for line in out.stdout.splitlines():
+        if line.startswith("FRESH "):
+            r = json.loads(line[6:])
+            if r[4] is not None:
+                return None
+            return (r[0], [tuple(x) for x in r[1]], r[2], r[3])
+    return None
+
+
 def _preimport():
     """Import the package under test in the parent so that forked workers share it."""
     try:
@@ -127,6 +154,9 @@ def _preimport():
 
 
 def _worker_init():
+    import logging
+
+    logging.disable(logging.WARNING)
     # workers must not inherit a half-used scratch cleanup duty
     os.environ["VERIF_WORKER"] = "1"
 
@@ -229,12 +259,22 @@ class Ctx:
                 if o2[4] is not None or o2[0] != outcome or sorted(s for s, _ in o2[1]) != sorted(
                     s for s, _ in fails
                 ):
-                    raise HarnessError(
-                        f"non-deterministic failure on case {jsonable(case)}: {fails} vs {o2[:2]} {o2[4]} "
-                        "(the case failed in a worker that had evaluated other cases before and does not fail the same way when "
-                        "re-run: either the harness leaks state, or the code under test keeps state between calls - make the "
-                        "case self-contained, e.g. by a decoy call inside the case)"
-                    )
+                    # The case failed in a long-lived worker but not (or differently) when re-run here: its outcome depends
+                    # on what the process evaluated before. Decide it in two pristine interpreter processes: if both fail
+                    # identically the failure is genuine (and reproducible from the case alone) and is reported as
+                    # observed there; otherwise this is a harness error.
+                    self._fresh_used = getattr(self, "_fresh_used", 0) + 1
+                    f1, f2 = (_fresh_eval(evaluate, case), _fresh_eval(evaluate, case)) if self._fresh_used <= 12 else (None, None)
+                    if f1 is not None and f2 is not None and f1[1] and sorted(x[0] for x in f1[1]) == sorted(x[0] for x in f2[1]):
+                        outcome, nontrivial, info = f1[0], f1[2], f1[3]
+                        res = Result(outcome, [Fail(s_, m_ + " [confirmed in two pristine processes; in a long-lived worker the outcome depended on earlier cases: state is kept between calls]") for s_, m_ in f1[1]], nontrivial, info)
+                    else:
+                        # not reproducible from the case alone: never reported as a violation; remembered, and turned into a
+                        # harness error at the end unless reproducible failures explain the run
+                        if not hasattr(self, "order_dependent"):
+                            self.order_dependent = []
+                        self.order_dependent.append((jsonable(case), [s_ for s_, _ in fails], (f1 and f1[:2]), (f2 and f2[:2])))
+                        res = Result(outcome if o2[0] is None else o2[0], [], nontrivial, info)
             self.record(case, res)
         return results
 
@@ -314,6 +354,16 @@ class Ctx:
             )
             print(f"VIOLATION property={self.prop_id} replay={path}")
             print(f"  signature: {sig}\n  {f.message[:600]}\n  failing cases: {len(items)}")
+        od = getattr(self, "order_dependent", [])
+        if od:
+            print(
+                f"NOTE property={self.prop_id}: {len(od)} case(s) failed in a long-lived worker but not when re-run alone "
+                f"(outcome depends on earlier cases), e.g. {str(od[0])[:400]}"
+            )
+            if status == 0:
+                self._write_evidence(wall, 0)
+                print(f"HARNESS-ERROR property={self.prop_id}: order-dependent failures that no reproducible failure explains")
+                return 2
         distinct_nt = len(self.nontrivial_keys)
         if status == 0 and (distinct_nt < floor_nontrivial or len(self.outcomes) < floor_outcomes):
             self._write_evidence(wall, len(new))
